@@ -4,9 +4,6 @@
 #[macro_use]
 #[path = "/verif/harness/common/prelude.rs"]
 pub mod prelude;
-#[macro_use]
-#[path = "/verif/harness/common/uf.rs"]
-pub mod uf;
 use super::*;
 use prelude::*;
 use refmodels::aes as ra;
@@ -25,6 +22,74 @@ pub fn w_from(inp: &[u8], off: usize) -> W {
 }
 pub fn real_bitslice(out: &mut [W], x: &[[u8; 16]; NB]) {
     bitslice(out, &x[0], &x[1]);
+}
+
+/// bit positions of lane 0 inside a word (lane l: shifted left by l)
+pub const LANE0_MASK: W = 0x55555555;
+macro_rules! ds2 {
+    ($a:ident, $b:ident, $sh:expr, $m:expr) => {
+        let t = ($a ^ ($b >> $sh)) & $m;
+        $a ^= t;
+        $b ^= t << $sh;
+    };
+}
+macro_rules! swaps {
+    ($t0:ident, $t1:ident, $t2:ident, $t3:ident, $t4:ident, $t5:ident, $t6:ident, $t7:ident) => {
+        ds2!($t1, $t0, 1, 0x55555555);
+        ds2!($t3, $t2, 1, 0x55555555);
+        ds2!($t5, $t4, 1, 0x55555555);
+        ds2!($t7, $t6, 1, 0x55555555);
+        ds2!($t2, $t0, 2, 0x33333333);
+        ds2!($t3, $t1, 2, 0x33333333);
+        ds2!($t6, $t4, 2, 0x33333333);
+        ds2!($t7, $t5, 2, 0x33333333);
+        ds2!($t4, $t0, 4, 0x0f0f0f0f);
+        ds2!($t5, $t1, 4, 0x0f0f0f0f);
+        ds2!($t6, $t2, 4, 0x0f0f0f0f);
+        ds2!($t7, $t3, 4, 0x0f0f0f0f);
+    };
+}
+macro_rules! rr {
+    ($x:expr, $o:expr) => {
+        ($x[$o] as W) | (($x[$o + 1] as W) << 8) | (($x[$o + 2] as W) << 16) | (($x[$o + 3] as W) << 24)
+    };
+}
+macro_rules! wr {
+    ($x:expr, $o:expr, $c:ident) => {
+        $x[$o] = $c as u8;
+        $x[$o + 1] = ($c >> 8) as u8;
+        $x[$o + 2] = ($c >> 16) as u8;
+        $x[$o + 3] = ($c >> 24) as u8;
+    };
+}
+/// Loop-free, call-free transcription of bitslice() on plain arrays (fx_bitslice proves it equal to the crate's function);
+/// used inside stubs and specifications, where the crate's own function would cost thousands of program steps per call.
+pub fn fast_slice(x: &[[u8; 16]; NB]) -> [W; 8] {
+    let mut t0: W = rr!(x[0], 0);
+    let mut t2: W = rr!(x[0], 4);
+    let mut t4: W = rr!(x[0], 8);
+    let mut t6: W = rr!(x[0], 12);
+    let mut t1: W = rr!(x[1], 0);
+    let mut t3: W = rr!(x[1], 4);
+    let mut t5: W = rr!(x[1], 8);
+    let mut t7: W = rr!(x[1], 12);
+    swaps!(t0, t1, t2, t3, t4, t5, t6, t7);
+    [t0, t1, t2, t3, t4, t5, t6, t7]
+}
+/// Loop-free transcription of inv_bitslice() (fx_inv_bitslice proves it equal to the crate's function).
+pub fn fast_unslice(s: &[W]) -> [[u8; 16]; NB] {
+    let (mut t0, mut t1, mut t2, mut t3, mut t4, mut t5, mut t6, mut t7) = (s[0], s[1], s[2], s[3], s[4], s[5], s[6], s[7]);
+    swaps!(t0, t1, t2, t3, t4, t5, t6, t7);
+    let mut o = [[0u8; 16]; NB];
+    wr!(o[0], 0, t0);
+    wr!(o[0], 4, t2);
+    wr!(o[0], 8, t4);
+    wr!(o[0], 12, t6);
+    wr!(o[1], 0, t1);
+    wr!(o[1], 4, t3);
+    wr!(o[1], 8, t5);
+    wr!(o[1], 12, t7);
+    o
 }
 
 //@ harness name=fx_bitslice prop=C02,C03,C04,C17,C20 tier=quick bits=256 est=30 desc="L(D): bitslice(b0, b1) == model placement (bit p of byte (r,c) of block b at word p, bit 8r+2c+b) and inv_bitslice(bitslice(x)) == x; all 2 x 128-bit blocks"
